@@ -500,9 +500,9 @@ type genCtx struct {
 	safe    bool // names/discriminants from the delimiter-free alphabet
 }
 
-// (two names begin with a non-ASCII lower-case letter: the Go field a caller declares for them is spelled with the upper-case
+// (two names are Go keywords: generated code needs a symbol override for them; two names begin with a non-ASCII lower-case letter: the Go field a caller declares for them is spelled with the upper-case
 // letter, strings.Title("écart") = "Écart")
-var fieldNames = []string{"a", "b", "c", "x", "y", "foo", "bar", "id", "val", "k1", "next", "écart", "ñu"}
+var fieldNames = []string{"a", "b", "c", "x", "y", "foo", "bar", "id", "val", "k1", "next", "écart", "ñu", "type", "range"}
 var renamePool = []string{"A", "B", "alpha", "β", "", " ", "x.y", "0", "renamed", "a", "b", "foo", "id", "val"}
 var discPool = []string{"s", "i", "str", "int", "one", "two", "X", "y2", "lnk", "m", "q"}
 var oddDiscPool = []string{"", " ", "ключ", "a b", "π"}
